@@ -13,14 +13,14 @@ import bfg9000.depfixer as DF
 import bfg9000.tools.cc.compiler as CC
 
 
-NAMES = ['a.c', 'dir/b.h', 'my\\ header.h', 'x\\#y.h', 'p$$q.h', 'c\\:d.h', 'tab\\\tname.h', 'p%q.h']
+NAMES = ['a.c', 'dir/b.h', 'my\\ header.h', 'x\\#y.h', 'p$$q.h', 'c\\:d.h', 'tab\\\tname.h', 'p%q.h', '%gen.h']
 SEPS = [' ', '  ', ' \\\n  ', '\t']
 
 
 class DepfixerReference(Bounded):
     """depfixer.emit_deps on generated gcc-style depfiles (grammar: `targets ':' deps` per logical line, names with
     backslash-escaped blanks / `#` / `:` and `$$`, separators blank / tab / backslash-newline continuation; up to two
-    rules, up to three dependencies from a pool of eight spellings): the output is exactly one `dep:` line per
+    rules, up to three dependencies from a pool of nine spellings): the output is exactly one `dep:` line per
     dependency, spelled as in the input except that `%` (literal in a prerequisite, a pattern in a target) is escaped."""
     target = 'bfg9000/depfixer.py::emit_deps'
     properties = ('C07', 'C04')
@@ -111,6 +111,8 @@ SCENARIOS = {
     'blank-in-names': ('my prog', ['a b.h', 'c d.h']),
     'make-specials': ('pro#g', ['x#y.h', 'p%q.h']),
     'nested-dirs': ('out/bin/prog', ['inc/a.h', 'inc/deep/b c.h']),
+    'first-char-percent': ('prog', ['%cfg.h', 'x%.h']),
+    'precompiled-header': ('prog', ['pre.h', 'seen-through-pch.h']),
 }
 
 
@@ -141,8 +143,14 @@ class IncrementalBuild(Bounded):
                 _os.makedirs(_os.path.dirname(fp), exist_ok=True)
                 with open(fp, 'w') as f:
                     f.write(text)
-            w('build.bfg', "project('p')\nexecutable(%r, files=['main.c'])\n" % prog)
-            w('main.c', '#include "%s"\nint main(void) { return VALUE - 3; }\n' % hs[0])
+            if raw['scenario'] == 'precompiled-header':
+                w('build.bfg', "project('p')\npch = precompiled_header(file=%r)\nexecutable(%r, files=['main.c'], pch=pch)\n" % (hs[0], prog))
+            else:
+                w('build.bfg', "project('p')\nexecutable(%r, files=['main.c'])\n" % prog)
+            if raw['scenario'] == 'precompiled-header':
+                w('main.c', 'int main(void) { return VALUE - 3; }\n')      # sees the headers only through the PCH
+            else:
+                w('main.c', '#include "%s"\nint main(void) { return VALUE - 3; }\n' % hs[0])
             rel = _os.path.relpath(hs[1], _os.path.dirname(hs[0]) or '.')
             w(hs[0], '#include "%s"\n' % rel)
             w(hs[1], '#define VALUE 3\n')
@@ -183,9 +191,16 @@ class IncrementalBuild(Bounded):
                 return self.fail(case, raw, 'header_change_rebuilds_the_object', header=hs[1], output=out[-500:],
                                  program_exit=exit_of_prog())
             # stop including the headers and delete them in the same edit (the old depfile still names them)
-            _os.remove(src + '/' + hs[0])
-            _os.remove(src + '/' + hs[1])
-            w('main.c', '#define VALUE 5\nint main(void) { return VALUE - 5; }\n')
+            if raw['scenario'] == 'precompiled-header':
+                # the precompiled header stays (build.bfg names it); it stops including the second header
+                w(hs[0], '#define VALUE 5\n')
+                _os.utime(src + '/' + hs[0], (t + 100, t + 100))
+                _os.remove(src + '/' + hs[1])
+                w('main.c', 'int main(void) { return VALUE - 5; }\n')
+            else:
+                _os.remove(src + '/' + hs[0])
+                _os.remove(src + '/' + hs[1])
+                w('main.c', '#define VALUE 5\nint main(void) { return VALUE - 5; }\n')
             t += 100
             _os.utime(src + '/main.c', (t, t))
             rc, out = make()
